@@ -30,6 +30,10 @@ CHECKS = {
                           "owner_disconnect_two_waiters", "waiter_removed", "limit_names_hit", "waiter_replaces_owner"]),
     "C05": simbus("C05", RULE % "C05 (unicast to unique / well-known / missing names and the bus, concurrent ownership changes, closes, stalled readers, replies)",
                   probes=["dest_missing", "send_to_self", "eavesdrop_copy", "owner_handover_to_waiter", "noreply_on_disconnect"]),
+    "C07": simbus("C07", RULE % "C07 (AddMatch/RemoveMatch with grammar-generated and deliberately defective rule strings in several quoting spellings, broadcasts built from the same vocabulary, disconnects, rule limit)",
+                  probes=["addmatch_ok", "addmatch_invalid", "rmmatch_ok", "rmmatch_notfound", "broadcast_copy", "limit_rules_hit"], safety_prop="C07"),
+    "C13": simbus("C13", RULE % "C13 (random subset of small limits: connections, per-user, incomplete, names, match rules, pending replies, message size; several simulated users; fill / overflow / release / refill)",
+                  probes=["limit_names_hit", "limit_rules_hit", "limit_replies_hit", "limit_completed_hit", "limit_per_user_hit", "oversize_message_sent"], safety_prop="C10"),
 }
 
 # ----------------------------------------------------------------------------- MANIFEST texts
